@@ -6,6 +6,7 @@ import (
 	"os"
 	"sort"
 	"strconv"
+	"strings"
 	"testing"
 	"time"
 )
@@ -164,6 +165,7 @@ func worker(t *testing.T, world string, sp *Spec) {
 	budget := time.Duration(envInt("VERIF_BUDGET_S", 10)) * time.Second
 	maxRuns := int(envInt("VERIF_RUNS", 1<<40))
 	recheck := int(envInt("VERIF_RECHECK", 25))
+	dumpDir := os.Getenv("VERIF_RECHECK_DUMP") // diagnosis only: keep event logs, write both of a differing re-execution there
 	outPath := os.Getenv("VERIF_OUT")
 	progress := outPath + ".progress"
 	timed := os.Getenv("VERIF_TIMED") != ""
@@ -201,7 +203,7 @@ func worker(t *testing.T, world string, sp *Spec) {
 			r = RunTimed(t, sp.Mk, seed)
 			keep = false
 		} else {
-			r = RunOne(t, sp.Mk, NewSeedTape(seed), sp.Limits, keep)
+			r = RunOne(t, sp.Mk, NewSeedTape(seed), sp.Limits, keep || dumpDir != "")
 		}
 		out.Runs++
 		out.SeedLast = seed
@@ -278,9 +280,14 @@ func worker(t *testing.T, world string, sp *Spec) {
 				out.Violations = append(out.Violations, rf)
 			}
 		} else if recheck > 0 && k%recheck == 0 {
-			r2 := RunOne(t, sp.Mk, NewSeedTape(seed), sp.Limits, false)
+			r2 := RunOne(t, sp.Mk, NewSeedTape(seed), sp.Limits, dumpDir != "")
 			history = append(history, seed)
 			out.Rechecked++
+			if r2.Hash != r.Hash && dumpDir != "" {
+				// diagnosis: both event logs of a re-execution that differed inside this process
+				_ = os.WriteFile(fmt.Sprintf("%s/%d.first", dumpDir, seed), []byte(strings.Join(r.Trace, "\n")), 0o644)
+				_ = os.WriteFile(fmt.Sprintf("%s/%d.second", dumpDir, seed), []byte(strings.Join(r2.Trace, "\n")), 0o644)
+			}
 			if r2.Hash != r.Hash {
 				out.Nondet = append(out.Nondet, fmt.Sprintf("seed=%d %s vs %s", seed, r.Hash, r2.Hash))
 			}
